@@ -93,6 +93,36 @@ Proof.
   destruct (Hx st) as [j [st1 ->]]. cbn [bind]. destruct (IH st1) as [js [st2 ->]]. cbn [bind]. eauto.
 Qed.
 
+(* the closures of an object array's content: every cell is serialised, the lists around them never refuse *)
+Definition total_clo (c : clo) : Prop := forall st, exists j st', c st = Ok (j, st').
+Lemma run_all_total cs : Forall total_clo cs -> forall st, exists js st', run_all cs st = Ok (js, st').
+Proof.
+  induction 1 as [|c cs Hc Hcs IH]; intros st; cbn [run_all]; [eauto|].
+  destruct (Hc st) as [j [st1 ->]]. cbn [bind]. destruct (IH st1) as [js [st2 ->]]. cbn [bind]. eauto.
+Qed.
+Lemma chunks_total k d (cs : list clo) : Forall total_clo cs -> length cs = (d * k)%nat ->
+  forall (g : list clo -> clo), (forall ch, Forall total_clo ch -> length ch = k -> total_clo (g ch)) ->
+  Forall total_clo (map g (chunks k d cs)).
+Proof.
+  intros Hc Hlen g Hg. pose proof (chunks_Forall total_clo k d cs Hc) as H1. pose proof (chunks_len_each k d cs Hlen) as H2.
+  revert H1 H2. generalize (chunks k d cs) as chs. induction chs as [|ch chs IH]; intros H1 H2; cbn [map]; constructor.
+  - apply Hg; [exact (Forall_inv H1)|exact (Forall_inv H2)].
+  - apply IH; [exact (Forall_inv_tail H1)|exact (Forall_inv_tail H2)].
+Qed.
+Lemma tolist_total : forall dims cs, Forall total_clo cs -> length cs = nprod dims -> total_clo (tolist_state dims cs).
+Proof.
+  induction dims as [|d ds IH]; intros cs Hc Hlen.
+  - cbn [nprod] in Hlen. destruct cs as [|c [|c' cs]]; try discriminate Hlen. cbn [tolist_state]. inversion Hc; assumption.
+  - cbn [nprod] in Hlen. rewrite tolist_state_cons. intros st. unfold list_clo. destruct (fresh st) as [lid st0].
+    destruct (run_all_total _ (chunks_total (nprod ds) d cs Hc Hlen (tolist_state ds) (IH)) st0) as [js [st1 ->]]. cbn [bind]. eauto.
+Qed.
+Lemma content_total_clos dims cs : Forall total_clo cs -> length cs = nprod dims -> Forall total_clo (content_clos dims cs).
+Proof.
+  intros Hc Hlen. destruct dims as [|d ds]; cbn [content_clos].
+  - constructor; [apply tolist_total; assumption|constructor].
+  - cbn [nprod] in Hlen. apply (chunks_total (nprod ds) d cs Hc Hlen (tolist_state ds)). apply tolist_total.
+Qed.
+
 Lemma content_total F D l : forallb (keyb F D) (map fst l) = true -> forallb (fun kv => negb (is_prop (snd kv))) l = true ->
   Forall (fun kv => forall st, exists j st', get_state D (snd kv) st = Ok (j, st')) l ->
   forall acc st, NoDup (map fst acc ++ map (fun kv => ktext (fst kv)) l) ->
@@ -145,13 +175,13 @@ Proof.
     { rewrite Forall_forall in *. intros x Hx. apply IH; [exact Hx|apply Hall; exact Hx]. }
     cbn [bind]. destruct (IHf Hff st1) as [jf [st2 ->]]. cbn [bind]. eauto.
   - intros id mo c sh l IH Hf st. cbn [fragb] in Hf. apply andb_prop in Hf. destruct Hf as [Hf Hall]. apply andb_prop in Hf. destruct Hf as [Hf _].
-    apply andb_prop in Hf. destruct Hf as [_ Hsh].
-    destruct sh as [|d [|? ?]]; try discriminate Hsh. apply Z.eqb_eq in Hsh. subst d. rewrite forallb_forall in Hall.
-    cbn [get_state map]. rewrite Nat2Z.id, (tolist_rank1 (fun x s0 => get_state D x s0)). destruct (fresh st) as [lid sta].
-    destruct (states_total D l) with (st := sta) as [js [st1 ->]].
-    { rewrite Forall_forall in *. intros x Hx. apply IH; [exact Hx|apply Hall; exact Hx]. }
-    cbn [bind]. change (jindex (list_state js lid) (CodecDump.K "content")) with (Ok (A:=json) (JArr js)). cbn [bind].
-    destruct (shape_state _ st1) as [shj st2]. eauto.
+    apply andb_prop in Hf. destruct Hf as [_ Hsh]. rewrite forallb_forall in Hall.
+    cbn [get_state]. rewrite Hsh. destruct (fresh st) as [lid sta]. destruct (shape_ok_nat _ _ Hsh) as [_ [_ Hlen]].
+    assert (Hc : Forall total_clo (map (fun x s0 => get_state D x s0) l)).
+    { apply Forall_forall. intros c0 Hc0. apply in_map_iff in Hc0. destruct Hc0 as [x [<- Hx]]. intros st0.
+      rewrite Forall_forall in IH. apply IH; [exact Hx|apply Hall; exact Hx]. }
+    destruct (run_all_total _ (content_total_clos (map Z.to_nat sh) _ Hc ltac:(rewrite map_length; exact Hlen)) sta) as [js [st1 ->]].
+    cbn [bind]. destruct (shape_state _ st1) as [shj st2]. eauto.
   - intros id mo c d k IHd IHk Hf st. cbn [fragb] in Hf. apply andb_prop in Hf. destruct Hf as [Hf Hfk]. apply andb_prop in Hf. destruct Hf as [_ Hfd].
     cbn [get_state]. destruct (IHd Hfd st) as [jd [st1 ->]]. cbn [bind]. destruct (IHk Hfk st1) as [jk [st2 ->]]. cbn [bind]. eauto.
   - intros id mo c x IHx Hf st. cbn [fragb] in Hf. apply andb_prop in Hf. destruct Hf as [_ Hfx].
